@@ -147,6 +147,7 @@ type Step struct {
 	Outs   []Out
 	Panic  any
 	Probe  bool // injected by the C11 prober (not part of the organic run)
+	Evicted bool // OpNewTx: the notified transaction has left the pool again (the verified pool is empty in this call)
 }
 
 // Oracle observes a run.  Hooks are called synchronously by the kernel.
@@ -224,6 +225,7 @@ type Sim struct {
 	slowX   int64  // cross-faction extra delay
 	gstDone bool
 
+	deadTx    map[Hash]bool // transactions evicted from every pool
 	authentic []*Payload // every payload ever broadcast by anyone (adversary's library)
 	trigSeen  map[hv]bool // event-triggered faults: epochs whose first commit / change view was already seen
 	accepts   map[uint32][]acceptRec
@@ -239,7 +241,7 @@ type Sim struct {
 }
 
 func NewSim(sc *Scenario, t *Tape) *Sim {
-	s := &Sim{sc: sc, tape: t, allTx: map[Hash]*Tx{}}
+	s := &Sim{sc: sc, tape: t, allTx: map[Hash]*Tx{}, deadTx: map[Hash]bool{}}
 	s.st.Fault = map[string]int{}
 	s.st.Probe = map[string]int{}
 	s.st.StateSigs = map[uint64]struct{}{}
